@@ -49,6 +49,25 @@ def check_prefixes(rep, drv, case, mode, data, with_schema, cuts):
         if r != 'underrun':
             rep.fail('prefix-oneshot-' + r, 'one-shot decode of a proper prefix (cut %d of %d) -> %s' % (k, len(data), r), base)
         rep.count('cuts')
+        # (a') one-shot on streams holding the prefix: closed (end of stream) and still open (a non-blocking stream that
+        # answers "nothing yet"): the one-shot call raises the insufficient-data error, it never returns
+        for sname, mk in (('closed-bytesio', lambda: io.BytesIO(pre)),
+                          ('open-nonblocking-bytesio', lambda: streams.NonBlockingBytesIO(pre)),
+                          ('open-nonseekable', lambda: streams.GrowingStream(seekable=False)),
+                          ('open-seekable', lambda: streams.GrowingStream(seekable=True))):
+            if sname in ('open-seekable', 'closed-bytesio') and k % 3:
+                continue
+            st = mk()
+            if isinstance(st, streams.GrowingStream):
+                st.feed(pre)
+            try:
+                got = dec.decode(st, asn1Spec=schema)
+                r2 = 'value' if not isinstance(got[0], error.SubstrateUnderrunError) else 'returned-underrun-object'
+            except Exception as e:  # noqa
+                r2 = codec.classify(e)
+            if r2 != 'underrun':
+                rep.fail('prefix-oneshot-stream-' + r2, 'one-shot decode of a %s stream holding a proper prefix (cut %d of %d) -> %s' % (
+                    sname, k, len(data), r2), dict(base, stream=sname))
         if with_schema:
             md = codec.model_decode(drv, cdc, case.t, pre)
             rep.corr_checked += 1
